@@ -12,7 +12,7 @@ ACCOUNTS = [
     'Income:Interest', 'Expenses:Food', 'Expenses:Food:Out', 'Expenses:Rent', 'Expenses:Fees', 'Expenses:Taxes',
 ]
 STOCKS = ['HOOL', 'VTI']
-PAYEES = ['Acme', 'Corner Shop', 'Landlord', None, 'Broker Inc', 'ACME corp']
+PAYEES = ['Acme', 'Corner Shop', 'Landlord', None, 'Broker Inc', 'ACME corp', 'Consolidated Amalgamated International Hardware and Garden Supplies Ltd']
 NARRATIONS = ['groceries', 'rent', 'salary', 'buy', 'sell', 'misc stuff', '', 'a very long narration ' * 5, 'Ünïcode café']
 TAGS = ['trip', 'work', 'x-1']
 LINKS = ['inv-1', 'doc2']
@@ -254,6 +254,10 @@ def gen_ledger(rng, ntxn=10, with_queries=True, with_pad=True, start_year=2019, 
             '    ref: "first"',
             f'  Assets:Crypto   3 BTC.X {{1000.00 USD, {ed}, "lot-α"}}',
             '  Assets:Cash  -5000.00 USD',
+            f'{ed} * "a grant: lots at no cost" "Cafe\u0301 de\u0301compose\u0301"',
+            '  Assets:Crypto   5 BTC.X {0.00 USD, "bonus"}',
+            '  Assets:Crypto   3 A1 {0 USD}',
+            '  Income:Gains',
             f'{ed} * "total price and tiny numbers"',
             '  Assets:Crypto   7 T-BILL @@ 693.07 USD',
             '  Assets:Crypto   0.00000001 A1 @ 123456789.00 USD',
